@@ -231,6 +231,24 @@ func RunStorageErrors(c *Ctx) {
 					}
 				}
 			}
+			// 1c. a storage call inside a deferred closure: its error reaches the caller only through a named result of the
+			// enclosing function (an assignment to any other captured variable happens after the return values were evaluated)
+			if fi.Lit != nil && fi.Parent != nil && fi.Parent.Body != nil && isDeferredLit(fi.Parent, fi.Lit) {
+				if p, ok := pm[sc.call].(*ast.AssignStmt); ok && len(p.Rhs) == 1 && sidx < len(p.Lhs) {
+					if id, ok := p.Lhs[sidx].(*ast.Ident); ok && id.Name != "_" {
+						v := info.Defs[id]
+						if v == nil {
+							v = info.Uses[id]
+						}
+						if v != nil && !flowsToNamedResult(fi, v) {
+							c.R.Obl(Obligation{Rule: "E5.R-storage", Func: fi.Name, Construct: construct + " (deferred: error reaches a named result)", Pos: pos, Discharged: false, Nontrivial: true, Ctl: fi.Ctl})
+							c.R.Find(Finding{Rule: "E5.R-storage", Func: fi.Name, Construct: "lost error of deferred " + construct, Pos: pos,
+								Msg: fmt.Sprintf("%s runs in a deferred closure and its error is not assigned to a named result of the enclosing function: the return values are already evaluated, a storage failure at this point goes unnoticed", types.ExprString(sc.call)), Ctl: fi.Ctl})
+							continue
+						}
+					}
+				}
+			}
 			// 2. nothing is granted on the error edge
 			if f == nil {
 				f = e.analyse(fi)
@@ -614,4 +632,73 @@ func RunErrorsExamined(c *Ctx, pkgs []string) {
 		})
 	}
 	c.R.Extra["error_assignments_examined"] = n
+}
+
+// isDeferredLit: lit is the function of a `defer func(){...}()` statement of parent.
+func isDeferredLit(parent *FuncInfo, lit *ast.FuncLit) bool {
+	found := false
+	ast.Inspect(parent.Body, func(n ast.Node) bool {
+		if d, ok := n.(*ast.DeferStmt); ok && unparen(d.Call.Fun) == ast.Expr(lit) {
+			found = true
+		}
+		return !found
+	})
+	return found
+}
+
+// flowsToNamedResult: inside closure fi, the error variable v is assigned (directly, wrapped in a call, or through one
+// more local) to a named result of an enclosing function.
+func flowsToNamedResult(fi *FuncInfo, v types.Object) bool {
+	info := fi.Pkg.TypesInfo
+	named := map[types.Object]bool{}
+	for f := fi.Parent; f != nil; f = f.Parent {
+		if f.Sig == nil {
+			continue
+		}
+		for i := 0; i < f.Sig.Results().Len(); i++ {
+			if r := f.Sig.Results().At(i); r.Name() != "" && r.Name() != "_" {
+				named[r] = true
+			}
+		}
+	}
+	carriers := map[types.Object]bool{v: true}
+	mentions := func(e ast.Expr) bool {
+		hit := false
+		ast.Inspect(e, func(n ast.Node) bool {
+			if id, ok := n.(*ast.Ident); ok && carriers[info.Uses[id]] {
+				hit = true
+			}
+			return !hit
+		})
+		return hit
+	}
+	for round := 0; round < 3; round++ {
+		done := false
+		ast.Inspect(fi.Body, func(n ast.Node) bool {
+			as, ok := n.(*ast.AssignStmt)
+			if !ok || len(as.Lhs) != len(as.Rhs) {
+				return true
+			}
+			for i, l := range as.Lhs {
+				id, ok := unparen(l).(*ast.Ident)
+				if !ok || !mentions(as.Rhs[i]) {
+					continue
+				}
+				o := info.Uses[id]
+				if o == nil {
+					o = info.Defs[id]
+				}
+				if named[o] {
+					done = true
+				} else if o != nil {
+					carriers[o] = true
+				}
+			}
+			return true
+		})
+		if done {
+			return true
+		}
+	}
+	return false
 }
